@@ -23,7 +23,7 @@ ATOM_RE = re.compile(r"^(!?)([A-Za-z_][A-Za-z_0-9]*)\((.*)\)$")
 
 
 def gen(ch):
-    P = dlgen.gen_recursive(ch, max_nodes=8, max_edges=14, npatterns=(1, 3))
+    P = dlgen.gen_recursive(ch, max_nodes=8, max_edges=14, npatterns=(1, 3), rich_filters=True)
     for n in P.order:
         P.rels[n].from_file = False
     text, facts = dlgen.to_souffle(P)
